@@ -307,7 +307,11 @@ func judgeOCRA(c *Ctx, k ocraCase) {
 		// the name is the only thing handed over: the model is what the name says
 		m, ok := ref.ParseSuiteName(k.Suite.Raw)
 		if !ok {
-			return
+			// another letter case of a well-formed string: if the parser takes it, the code is computed over the
+			// spelling that was handed over (a suite reports the string it was made from as its name)
+			if m, ok = ref.ParseSuiteNameFold(k.Suite.Raw); !ok {
+				return
+			}
 		}
 		model = m
 		if serr != nil {
@@ -510,7 +514,35 @@ func checkOneOCRAMessage(c *Ctx, k ocraCase) bool {
 // c05EarlyHistories: the history-dependent routes (a suite object reconfigured in place through a pointer, a
 // constructed-then-edited value) once more at the very start of the process, on one goroutine, before anything else
 // has been derived - state that is only kept while some bounded table still has room is exercised here.
+// c05SpellingHistory: on one goroutine, a well-formed unregistered suite string, then the same string in other letter
+// cases, then the first again - each call's code must be the RFC value over the very spelling handed over.
+func c05SpellingHistory(c *Ctx) {
+	rng := c.RNG.Fork(56)
+	seen := 0
+	for tries := 0; seen < c.N(150, 2000) && tries < 100000; tries++ {
+		n := genSuiteName(rng)
+		m, ok := ref.ParseSuiteName(n)
+		if !ok || !ref.SuiteUsable(m) {
+			continue
+		}
+		seen++
+		key := rng.Bytes(20)
+		in := inputToJ(admissibleInput(rng, m, tries))
+		call := func(name string) {
+			judgeOCRA(c, ocraCase{KeyHex: hexs(key), Secret: ref.Base32EncodeNoPad(key), Via: viaRaw, Suite: ref.Suite{Raw: name}, Input: in, Note: "spelling history"})
+			c.R.Count("spelling_history_calls", 1)
+		}
+		vs := caseVariants(rng, n, 2)
+		call(n)
+		call(vs[0])
+		call(n)
+		call(vs[1])
+		call(vs[0])
+	}
+}
+
 func c05EarlyHistories(c *Ctx) {
+	c05SpellingHistory(c)
 	rng := c.RNG.Fork(55)
 	suites := handBuiltSuites(rng, []string{"OCRA-1:early"})
 	for i := 0; i < c.N(300, 3000) && len(suites) > 0; i++ {
